@@ -148,3 +148,47 @@ Example args_nontrivial :
         render_args [(Double, [97; 32; 34; 92; 42]); (Back, [34; 32; 92; 195; 169]); (Bare, [97; 108; 108; 58; 42; 46; 116; 120; 116]); (Double, [])])
      = DPats [[97; 32; 34; 92; 42]; [34; 32; 92; 195; 169]; [97; 108; 108; 58; 42; 46; 116; 120; 116]; []].
 Proof. split; [repeat constructor | vm_compute; reflexivity]. Qed.
+
+(* ---------- LoadDirectives over the files of a package ---------- *)
+(* A package is accepted only if every file that uses a //go:embed directive
+   imports embed ITSELF: an import in another file of the package does not count. *)
+Theorem directive_needs_own_import : forall root fs m,
+  load_directives root fs = Ok m ->
+  Forall (fun f => file_uses f = true -> gf_embed f = true) fs.
+Proof. exact load_ok_imports. Qed.
+Print Assumptions directive_needs_own_import.
+
+(* ... so one file with a directive and without the import makes LoadDirectives
+   fail, whatever the other files are and in whatever order they come *)
+Theorem directive_without_import_rejected : forall root fs f,
+  In f fs -> file_uses f = true -> gf_embed f = false -> exists e, load_directives root fs = Err e.
+Proof. exact load_noimport_rejects. Qed.
+Print Assumptions directive_without_import_rejected.
+
+(* The verdict is per file: the package is rejected iff some file, looked at
+   alone, is rejected (no state is carried from one file to the next). *)
+Theorem load_verdict_is_per_file : forall root fs,
+  (exists e, load_directives root fs = Err e) <-> Exists (fun f => exists e, load_file root f [] = Err e) fs.
+Proof. exact load_verdict_local. Qed.
+Print Assumptions load_verdict_is_per_file.
+
+Example load_nontrivial :
+  let t := Dir [([97; 46; 116; 120; 116], File [65])] in
+  let dir := [47; 47; 103; 111; 58; 101; 109; 98; 101; 100; 32; 97; 46; 116; 120; 116] in   (* //go:embed a.txt *)
+  let fa := {| gf_embed := true; gf_decls := [{| vd_doc := [dir]; vd_specs := [{| vs_names := [[120]]; vs_doc := [] |}] |}] |} in
+  let fb := {| gf_embed := false; gf_decls := [{| vd_doc := []; vd_specs := [{| vs_names := [[121]]; vs_doc := [dir] |}] |}] |} in
+  load_directives t [fa] = Ok [([120], [([97; 46; 116; 120; 116], [65])])]
+  /\ file_uses fb = true
+  /\ load_directives t [fa; fb] = Err E_NOIMPORT /\ load_directives t [fb; fa] = Err E_NOIMPORT.
+Proof. vm_compute. repeat split; reflexivity. Qed.
+
+(* ---------- []byte variables (cl/embed.go) ---------- *)
+(* every []byte variable has a store of its own, also when several variables
+   embed the same file; a write through one store leaves all others unchanged *)
+Theorem bytes_stores_distinct : forall vars next, NoDup (map snd (fst (bytes_stores vars next))).
+Proof. exact bytes_stores_distinct_l. Qed.
+Print Assumptions bytes_stores_distinct.
+
+Theorem write_isolated : forall heap i j k v, i <> j -> nth j (write_store heap i k v) [] = nth j heap [].
+Proof. exact write_isolated_l. Qed.
+Print Assumptions write_isolated.
